@@ -9,6 +9,7 @@ Tie:  translator: alias table + mode chain of TaskDescription._verify ->
 Monitor: alias values preserved, deprecated names cleared, verify idempotent,
       as_dict -> constructor -> equal, slot indices preserved, function round trip."""
 
+import os
 import copy
 import functools
 
@@ -190,6 +191,19 @@ def gen_callable(rng):
     return scaled, (n,), {'y': rng.randint(0, 3)}, settle
 
 
+def app_script(seed, count, only=None):
+    """harness/appscript_c19.py as the __main__ of a child process: functions, classes and helpers of an
+    application script through both encoders"""
+    import subprocess, sys, json
+    script = os.path.join(os.path.dirname(os.path.dirname(os.path.abspath(__file__))), 'appscript_c19.py')
+    cmd = [sys.executable, script, str(seed), str(count)] + ([str(only)] if only is not None else [])
+    p = subprocess.run(cmd, stdout=subprocess.PIPE, stderr=subprocess.PIPE, timeout=600)
+    lines = [l for l in p.stdout.decode().splitlines() if l.startswith('{')]
+    if p.returncode or not lines:
+        raise RuntimeError('application script failed: %s' % p.stderr.decode()[-400:])
+    return json.loads(lines[-1])
+
+
 def fn_case(rp, seed, i):
     """one callable through both encoders; returns the list of (how, got, want) that differ"""
     import random
@@ -366,6 +380,18 @@ def run(ctx):
             ctx.fail('function-transport-changes-result:' + how, '%r != %r' % (got, want),
                      {'kind': 'fn', 'index': i, 'seed': ctx.seed})
     hit['late_bound_closures'] = late
+    # ... and function tasks defined in an application's main script (run as __main__ in a child process)
+    napp = ctx.n(150, 3000)
+    app = app_script(ctx.seed, napp)
+    hit['main_script_functions'] = app.get('kinds')
+    for b in app['bad']:
+        bad_fn += 1
+        ctx.fail('function-transport-changes-result:main-script:' + b['how'],
+                 '%s%s: %r != %r' % (b['case'], b['args'], b['got'], b['want']),
+                 {'kind': 'app_fn', 'index': b['index'], 'seed': ctx.seed, 'count': napp})
+    for i in range(napp):
+        ctx.case({'app_fn': i}, nontrivial=True)
+    nfn += napp
     ctx.obligation('function transport: %d callables x {PythonTask, pythontask} decode to the same result' % nfn,
                    'tie', bad_fn == 0, '')
     ctx.traces += 2 * nfn
@@ -422,6 +448,10 @@ def replay(ctx, data):
         inlist = [slot_canon(x.as_dict()) for x in convert_slots_to_new(copy.deepcopy(olds))]
         print('observed: alone', alone, 'in the list', inlist)
         return alone == inlist
+    if i['kind'] == 'app_fn':
+        app = app_script(i['seed'], i['count'], i['index'])
+        print('observed:', app['bad'])
+        return not app['bad']
     if i['kind'] == 'fn':
         bad, _ = fn_case(rp, i['seed'], i['index'])
         print('observed:', bad)
